@@ -117,10 +117,14 @@ type cUpdate struct {
 	Events  []cEvent
 	Data    []byte
 	Counter uint
+	// inconsistentNu: authentically signed message whose accumulator value does not belong to its
+	// events (an inconsistent issuer): verification of the message succeeds, but a witness cannot be
+	// brought to it - the update must fail and leave the witness as it was
+	inconsistentNu bool
 }
 
 func (c *cUpdate) clone() *cUpdate {
-	n := &cUpdate{Data: append([]byte{}, c.Data...), Counter: c.Counter}
+	n := &cUpdate{Data: append([]byte{}, c.Data...), Counter: c.Counter, inconsistentNu: c.inconsistentNu}
 	for _, e := range c.Events {
 		n.Events = append(n.Events, cEvent{e.Index, new(big.Int).Set(e.E), append([]byte{}, e.Parent...)})
 	}
@@ -297,6 +301,20 @@ func (w *c10World) corruptions() []corruption {
 		c.Data = append([]byte{}, w.ch.resign[w.b].Data...)
 		return true
 	})
+	add("sacc.issuer-signs-accumulator-value-that-does-not-belong-to-the-events(authentic)", func(c *cUpdate) bool {
+		if w.b == 0 || len(c.Events) == 0 || c.Events[len(c.Events)-1].Index != uint64(w.b) || c.Events[0].Index == 0 {
+			return false
+		}
+		acc := *w.ch.accs[w.b]
+		acc.Nu = new(big.Int).Exp(acc.Nu, bi(3), w.ch.kp.Pk.N) // some other quadratic residue
+		s, err := acc.Sign(w.ch.kp.Sk)
+		if err != nil {
+			return false
+		}
+		c.Data = s.Data
+		c.inconsistentNu = true
+		return true
+	})
 	add("sacc.same-accumulator-signed-by-other-key", func(c *cUpdate) bool {
 		s, err := w.ch.accs[w.b].Sign(w.other.Sk)
 		if err != nil {
@@ -460,7 +478,13 @@ func (w *c10World) judge(c *cUpdate, how string) (sig, what string, reached bool
 	// ---- Witness.Update, witness positioned just before the window (or at 0), and at the
 	// window's last index (the "same accumulator index" path)
 	for _, pos := range []int{w.a - 1, w.b} {
-		if s, wh := w.judgeWitness(recv, authentic, how, pos); s != "" {
+		if c.inconsistentNu && pos == w.b {
+			continue
+		}
+		if s, wh := w.judgeWitness(recv, authentic && !c.inconsistentNu, how, pos); s != "" {
+			if c.inconsistentNu {
+				s = "inconsistent-accumulator:" + s
+			}
 			return s, wh, true
 		}
 	}
